@@ -649,11 +649,26 @@ class SemantivaOrchestrator(ABC):
         params_out: dict[str, Any] = {}
         source_out: dict[str, str] = {}
         declared = (node_def or {}).get("parameters", {}) or {}
-        defaults = getattr(node.processor, "get_default_params", lambda: {})() or {}
+        defaults_getter = getattr(node.processor, "get_default_params", None)
+        if callable(defaults_getter):
+            defaults = defaults_getter() or {}
+        else:
+            # Signature defaults of the processing parameters (same source the
+            # runtime resolution falls back to).
+            defaults = {
+                name: info.default
+                for name, info in self._parameter_defaults(node.processor).items()
+                if isinstance(info, ParameterInfo) and info.default is not _NO_DEFAULT
+            }
         for k, v in declared.items():
             params_out[k] = serialize_json_safe(v)
             source_out[k] = "node"
-        for k in required_keys:
+        # Runtime precedence is config > context > default, so a context value
+        # also wins over a signature default.
+        context_candidates = list(required_keys) + [
+            k for k in defaults if k not in required_keys
+        ]
+        for k in context_candidates:
             if k not in params_out and k in ctx_view:
                 params_out[k] = serialize_json_safe(ctx_view[k])
                 source_out[k] = "context"
